@@ -191,7 +191,7 @@ theorem step_ok_aux (P : Params) (t1 t2 : Triple) (a b : List Nat) (m : Mem) (hl
   | .foreach, _ => ⟨a, b, t1, t2, StepOk.of { vals := a } _ m 0 0
         (by simp [step, foreach_ofList]) (by simp) (by intro _; simp [LSeq.step]) (Mem.Eff.rfl' t1 m) rfl (by intro _; simp)⟩
   | .swapRoles, _ => by
-    refine ⟨b, a, t2, t1, ⟨by simp [step], Or.inr ⟨rfl, rfl⟩, by simp [step], by intro _; simp [step, LSeq.step], rfl,
+    refine ⟨b, a, t2, t1, ⟨by simp [step], Or.inr ⟨rfl, rfl⟩, fun h => absurd rfl h, by simp [step], by intro _; simp [step, LSeq.step], rfl,
       Mem.Frame.rfl' t1 m, ?_, fun hs => ⟨hs, by simp [step]⟩, by simp [step]⟩⟩
     intro t
     simp only [step, ownedBy]
